@@ -29,7 +29,7 @@ STUBS = ['asdf.open: in-memory tree whose raw columns are created lazily (same s
 ASSUMPTIONS = ['floats are reals', 'BoxSize, VelZSpace_to_kms > 0', 'sqrt arguments >= 0']
 MUST_COVER = {'abacusnbody.data.compaso_halo_catalog.CompaSOHaloCatalog._get_halo_fields_dependencies': 3,
               'abacusnbody.data.compaso_halo_catalog.CompaSOHaloCatalog._load_halo_field': 3,
-              'abacusnbody.data.compaso_halo_catalog.CompaSOHaloCatalog._setup_fields': 17}    # passthrough / light-cone branches
+              'abacusnbody.data.compaso_halo_catalog.CompaSOHaloCatalog._setup_fields': 22}    # passthrough / light-cone branches
 FUNCS = catlib.FUNCS
 
 USER = list(chc.user_dt.names)
